@@ -111,8 +111,9 @@ fn py_ctor(class: &str, ty: &str, args: &[String], parts: &BTreeMap<String, f64>
 }
 
 fn rust_eval<T: Calc>(xj: &Value, yj: &Value, l: f64, prog: &Value) -> Result<T, String> {
-    let x = T::from_json(xj)?;
-    let y = T::from_json(yj)?;
+    rust_eval_vals(T::from_json(xj)?, T::from_json(yj)?, l, prog)
+}
+fn rust_eval_vals<T: Calc>(x: T, y: T, l: f64, prog: &Value) -> Result<T, String> {
     let mut acc = x.clone();
     for step in prog.as_array().ok_or("prog")? {
         let op = step[0].as_str().unwrap_or("");
@@ -142,6 +143,70 @@ fn flat_of<T: Calc>(v: &T) -> BTreeMap<String, f64> {
     m
 }
 
+/// PyArrays.tla: a term over the initial operands evaluated by the Rust programs of PyBind's table
+enum TV<T> { D(T), F(f64) }
+struct ArrEnv<'a, T> { s: T, t: T, f: Vec<f64>, o: Vec<T>, rows: &'a BTreeMap<String, Value> }
+fn eval_term<T: Calc>(t: &Value, env: &ArrEnv<T>) -> Result<TV<T>, String> {
+    let tag = t[0].as_str().ok_or("term tag")?;
+    let idx = || t[1].as_u64().map(|i| i as usize - 1).ok_or("term index".to_string());
+    Ok(match tag {
+        "s" => TV::D(env.s.clone()),
+        "t" => TV::D(env.t.clone()),
+        "F" => TV::F(env.f[idx()?]),
+        "O" => TV::D(env.o[idx()?].clone()),
+        "row" => {
+            let py = t[1].as_str().ok_or("row name")?;
+            let prog = env.rows.get(py).ok_or(format!("no scalar row {py} in PyBind's table"))?;
+            let x = match eval_term(&t[2], env)? { TV::D(v) => v, TV::F(_) => return Err("float as accumulator".into()) };
+            let y = if t[3][0] == "none" { x.clone() } else { match eval_term(&t[3], env)? { TV::D(v) => v, TV::F(_) => return Err("float as dual operand".into()) } };
+            let l = if t[4][0] == "none" { 0.0 } else { match eval_term(&t[4], env)? { TV::F(v) => v, TV::D(_) => return Err("dual as float operand".into()) } };
+            TV::D(rust_eval_vals(x, y, l, prog)?)
+        }
+        other => return Err(format!("unknown term {other}")),
+    })
+}
+/// expected snapshot of one heap object: ["dual", display] | ["arr", dtype, shape, [display | bits]]
+fn expect_obj<T: Calc>(o: &Value, shape: &Value, env: &ArrEnv<T>) -> Result<Value, String> {
+    let kind = o["kind"].as_str().ok_or("kind")?;
+    let mut el = vec![];
+    for t in o["elems"].as_array().ok_or("elems")? {
+        el.push(match eval_term(t, env)? { TV::D(v) => json!(v.show()), TV::F(v) => json!(v.to_bits()) });
+    }
+    Ok(match kind {
+        "dual" => json!(["dual", el[0]]),
+        "farr" => json!(["arr", "float64", shape, el]),
+        "oarr" => json!(["arr", "object", shape, el]),
+        other => return Err(format!("kind {other}")),
+    })
+}
+const PY_ARR_RUNNER: &str = r#"
+import json as __json, struct as __struct
+__np.seterr(all="ignore")
+def __snap(o):
+    if isinstance(o, __np.ndarray):
+        return ['arr', str(o.dtype), list(o.shape),
+                [(__struct.unpack('<Q', __struct.pack('<d', e))[0] if isinstance(e, float) else repr(e)) for e in o.flat]]
+    return ['dual', repr(o)]
+def __mk_o(elems, shape):
+    a = __np.empty(len(elems), dtype=object)
+    for i, e in enumerate(elems): a[i] = e
+    return a.reshape(shape)
+def __arr_run(s, t, f, o, shape, steps):
+    h = [s, t, __np.array(f, dtype=float).reshape(shape), __mk_o(o, shape)]
+    out = []
+    for (op, a, b) in steps:
+        try:
+            x, y = h[a - 1], h[b - 1]
+            r = x + y if op == '+' else x - y if op == '-' else x * y if op == '*' else x / y
+            fresh = not any(r is q for q in h)
+            h.append(r)
+            out.append({'fresh': fresh, 'heap': [__snap(q) for q in h]})
+        except BaseException as e:
+            out.append({'error': type(e).__name__ + ': ' + str(e)[:200]})
+            break
+    return __json.dumps(out)
+"#;
+
 /// flatten a python getter result (float | Dual64 | tuple of those) into floats
 fn py_floats(py: Python<'_>, locals: &Bound<'_, PyDict>, expr: &str) -> PyResult<Vec<f64>> {
     let code = format!("__r = {expr}\ndef __fl(v):\n    if isinstance(v, (tuple, list)):\n        out = []\n        for e in v: out += __fl(e)\n        return out\n    if isinstance(v, float): return [v]\n    return [v.value, v.first_derivative]\n__o = __fl(__r)\n");
@@ -152,17 +217,43 @@ fn py_floats(py: Python<'_>, locals: &Bound<'_, PyDict>, expr: &str) -> PyResult
 fn main() {
     let args: Vec<String> = std::env::args().collect();
     let get = |n: &str| args.iter().position(|a| a == n).and_then(|i| args.get(i + 1).cloned());
+    let site = get("--site").unwrap_or_else(|| "/opt/veriftools/pyvenv/lib/python3.11/site-packages".to_string());
+    // probe tool: run a Python script against the real bindings (module name `nd`)
+    if let Some(script) = get("--exec") {
+        let code = std::fs::read_to_string(&script).expect("script");
+        pyo3::append_to_inittab!(nd_module);
+        pyo3::prepare_freethreaded_python();
+        let r: PyResult<()> = Python::with_gil(|py| {
+            let locals = PyDict::new(py);
+            py.run(&CString::new(format!("import sys\nsys.path.append('{site}')\nimport nd_embedded as nd\n")).unwrap(), Some(&locals), Some(&locals))?;
+            if py.run(&CString::new("import numpy as __np\n").unwrap(), Some(&locals), Some(&locals)).is_ok() {
+                py.run(&CString::new(PY_ARR_RUNNER).unwrap(), Some(&locals), Some(&locals))?;
+            }
+            py.run(&CString::new(code).unwrap(), Some(&locals), Some(&locals))
+        });
+        if let Err(e) = r { eprintln!("python error: {e}"); std::process::exit(3); }
+        return;
+    }
+    // panics of the code under test arrive in Python as PanicException (data); keep stderr short
+    {
+        static COUNT: std::sync::atomic::AtomicUsize = std::sync::atomic::AtomicUsize::new(0);
+        std::panic::set_hook(Box::new(|info| {
+            if COUNT.fetch_add(1, std::sync::atomic::Ordering::Relaxed) < 3 { eprintln!("panic: {info}"); }
+        }));
+    }
     let table_file = get("--table").expect("--table");
     let drivers_file = get("--drivers");
     let seed: u64 = get("--seed").and_then(|x| x.parse().ok()).unwrap_or(1);
     let samples: usize = get("--samples").and_then(|x| x.parse().ok()).unwrap_or(3);
-    let site = get("--site").unwrap_or_else(|| "/opt/veriftools/pyvenv/lib/python3.11/site-packages".to_string());
+    let arrays_file = get("--arrays");
+    let stride: usize = get("--stride").and_then(|x| x.parse().ok()).unwrap_or(1).max(1);
     let text = std::fs::read_to_string(&table_file).expect("table");
     let table = text.lines().find_map(|l| parse_tagged(l, "PYBIND")).expect("PYBIND line");
     pyo3::append_to_inittab!(nd_module);
     pyo3::prepare_freethreaded_python();
     let mut rep = Report { checks: 0, per_case: BTreeMap::new(), viol: vec![], n_viol: 0, samples: vec![] };
     let mut rng = Rng(seed ^ 0x9117);
+    let mut numpy_note = String::new();
     let res: PyResult<()> = Python::with_gil(|py| {
         let locals = PyDict::new(py);
         py.run(&CString::new(format!("import sys\nsys.path.append('{site}')\nimport nd_embedded as nd\n")).unwrap(), Some(&locals), None)?;
@@ -174,7 +265,7 @@ fn main() {
                 let expr = row["py"].as_str().unwrap();
                 for _ in 0..samples {
                     // operands: real part inside every function's domain (0.2 .. 0.9), arbitrary parts; acosh needs > 1
-                    let mut mk = |re_lo: f64, re_hi: f64, rng: &mut Rng| -> BTreeMap<String, f64> {
+                    let mk = |re_lo: f64, re_hi: f64, rng: &mut Rng| -> BTreeMap<String, f64> {
                         let mut m = BTreeMap::new();
                         for (i, a) in cargs.iter().enumerate() {
                             let v = |rng: &mut Rng| if i == 0 { re_lo + (re_hi - re_lo) * rng.unit() } else { rng.unit() * 4.0 - 2.0 };
@@ -219,6 +310,73 @@ fn main() {
             py.run(&CString::new(code).unwrap(), Some(&locals), None)?;
             let rr: String = locals.get_item("rr")?.unwrap().extract()?;
             rep.check(format!("{pyname}|from_re"), rr.starts_with("1.5") && !rr.contains("NaN"), || json!({"repr": rr}));
+        }
+        // ---- PyArrays.tla: behaviours over a heap of dual scalars, float arrays and object arrays
+        let mut numpy = "not requested".to_string();
+        if let Some(af) = &arrays_file {
+            match py.run(&CString::new("import numpy as __np\n").unwrap(), Some(&locals), Some(&locals)) {
+                Err(e) => { numpy = format!("unavailable: {e}"); }
+                Ok(()) => {
+                    py.run(&CString::new(PY_ARR_RUNNER).unwrap(), Some(&locals), Some(&locals))?;
+                    numpy = locals.get_item("__np")?.unwrap().getattr("__version__")?.extract::<String>()?;
+                    let rows: BTreeMap<String, Value> = table["rows"].as_array().unwrap().iter().map(|r| (r["py"].as_str().unwrap().to_string(), r["prog"].clone())).collect();
+                    let atext = std::fs::read_to_string(af).expect("arrays file");
+                    let behaviours: Vec<Value> = atext.lines().filter_map(|l| parse_tagged(l, "PYARR")).collect();
+                    for class in table["classes"].as_array().unwrap() {
+                        let (pyname, ty) = (class["py"].as_str().unwrap(), class["ty"].as_str().unwrap());
+                        let cargs: Vec<String> = class["args"].as_array().unwrap().iter().map(|a| a.as_str().unwrap().to_string()).collect();
+                        let nested = ty.contains('<');
+                        for (bi, bh) in behaviours.iter().enumerate() {
+                            if (bi + seed as usize) % stride != 0 { continue; }
+                            let shape = &bh["shape"];
+                            let n: usize = shape.as_array().unwrap().iter().map(|d| d.as_u64().unwrap() as usize).product();
+                            let mk = |rng: &mut Rng| -> BTreeMap<String, f64> {
+                                let mut m = BTreeMap::new();
+                                for (i, a) in cargs.iter().enumerate() {
+                                    let v = |rng: &mut Rng| if i == 0 { 0.3 + 1.7 * rng.unit() } else { rng.unit() * 4.0 - 2.0 };
+                                    if nested { let r = v(rng); m.insert(format!("{a}.re"), r); m.insert(format!("{a}.eps"), rng.unit() * 4.0 - 2.0); } else { m.insert(a.clone(), v(rng)); }
+                                }
+                                m
+                            };
+                            let (ps, pt) = (mk(&mut rng), mk(&mut rng));
+                            let fs: Vec<f64> = (0..n).map(|_| (0.5 + 2.0 * rng.unit()) * if rng.unit() < 0.3 { -1.0 } else { 1.0 }).collect();
+                            let os: Vec<BTreeMap<String, f64>> = (0..n).map(|_| mk(&mut rng)).collect();
+                            let steps = bh["steps"].as_array().unwrap();
+                            let kinds: Vec<&str> = bh["heap"].as_array().unwrap().iter().map(|o| o["kind"].as_str().unwrap()).collect();
+                            let code = format!("__out = __arr_run({}, {}, [{}], [{}], {}, [{}])\n",
+                                py_ctor(pyname, ty, &cargs, &ps), py_ctor(pyname, ty, &cargs, &pt),
+                                fs.iter().map(|v| pyf(*v)).collect::<Vec<_>>().join(", "),
+                                os.iter().map(|p| py_ctor(pyname, ty, &cargs, p)).collect::<Vec<_>>().join(", "),
+                                shape,
+                                steps.iter().map(|st| format!("('{}', {}, {})", st["op"].as_str().unwrap(), st["a"], st["b"])).collect::<Vec<_>>().join(", "));
+                            py.run(&CString::new(code.clone()).unwrap(), Some(&locals), Some(&locals))?;
+                            let outs: Value = serde_json::from_str(&locals.get_item("__out")?.unwrap().extract::<String>()?).unwrap();
+                            // expected heap (the model's final heap; by Immutable every prefix is the heap after the earlier steps)
+                            macro_rules! ex { ($T:ty) => {{
+                                let env = ArrEnv::<$T> { s: <$T>::from_json(&value_json(ty, &cargs, &ps)).unwrap(), t: <$T>::from_json(&value_json(ty, &cargs, &pt)).unwrap(),
+                                    f: fs.clone(), o: os.iter().map(|p| <$T>::from_json(&value_json(ty, &cargs, p)).unwrap()).collect(), rows: &rows };
+                                bh["heap"].as_array().unwrap().iter().map(|o| expect_obj(o, shape, &env)).collect::<Result<Vec<Value>, String>>()
+                            }}; }
+                            let want = match ty { "Dual" => ex!(Dual64), "Dual2" => ex!(Dual2_64), "Dual3" => ex!(Dual3_64), "HyperDual" => ex!(HyperDual64),
+                                "HHD" => ex!(HyperHyperDual64), "Dual2<Dual>" => ex!(Dual2<Dual64, f64>), "Dual3<Dual>" => ex!(Dual3<Dual64, f64>),
+                                "HyperDual<Dual>" => ex!(HyperDual<Dual64, f64>), other => Err(format!("unknown type {other}")) };
+                            let want = match want { Ok(v) => v, Err(e) => { eprintln!("tool error: {e}"); std::process::exit(2); } };
+                            for (k, st) in steps.iter().enumerate() {
+                                let (a, b) = (st["a"].as_u64().unwrap() as usize, st["b"].as_u64().unwrap() as usize);
+                                let case = format!("{pyname}|array {} {} {}", kinds[a - 1], st["op"].as_str().unwrap(), kinds[b - 1]);
+                                let got = &outs[k];
+                                let ok = got["error"].is_null() && got["fresh"] == json!(true) && got["heap"].as_array().map(|h| h.len() == 5 + k && h.iter().zip(&want).all(|(x, y)| x == y)).unwrap_or(false);
+                                rep.check(case, ok, || {
+                                    let first_bad = got["heap"].as_array().and_then(|h| h.iter().zip(&want).position(|(x, y)| x != y));
+                                    json!({"behaviour": bh["steps"], "shape": shape, "step": k + 1, "python": got.get("error").cloned().unwrap_or(json!(null)), "fresh": got["fresh"],
+                                           "first_differing_object": first_bad.map(|i| json!({"index": i + 1, "python": got["heap"][i], "model": want[i]})), "code": code })
+                                });
+                                if !ok { break; }
+                            }
+                        }
+                    }
+                }
+            }
         }
         // ---- drivers with python closures built from TLC's polynomial descriptions
         if let Some(df) = &drivers_file {
@@ -326,6 +484,7 @@ fn main() {
             rep.check("driver-fn|third_derivative".into(), got.len() == 4 && got.iter().zip(&want).all(|(a, b)| a.to_bits() == b.to_bits()), || json!({"python": got, "rust": want}));
         }
         let _ = PyList::empty(py);
+        numpy_note = numpy;
         Ok(())
     });
     if let Err(e) = res {
@@ -333,5 +492,5 @@ fn main() {
         std::process::exit(2);
     }
     println!("{}", json!({"checks": rep.checks, "distinct_cases": rep.per_case.len(), "per_case": rep.per_case, "n_violations": rep.n_viol,
-                          "violations": rep.viol, "samples": rep.samples}));
+                          "violations": rep.viol, "samples": rep.samples, "numpy": numpy_note}));
 }
